@@ -254,6 +254,12 @@ func (pConn *PFCPConn) handleSessionModificationRequest(msg message.Message) (me
 			return sendError(err)
 		}
 
+		if p.UPAllocateFteid {
+			// choosing an F-TEID is only implemented for session establishment;
+			// accepting the request would program TEID 0 and report nothing
+			return sendError(ErrUnsupported("CHOOSE F-TEID in Session Modification Request", p.pdrID))
+		}
+
 		p.fseidIP = fseidIP
 
 		session.CreatePDR(p)
